@@ -11,6 +11,9 @@ def nontrivial(req, obs):
         return f[5] != "-" and any(len(e.split(":")[1]) > 0 for e in f[5].split(";"))
     if f[0] == "C14.disk":
         return f[4] != "-"
+    if f[0] == "C14.lex":
+        # something was inserted into a text of at least two tokens
+        return f[2] != "-" and obs.count(";") >= 1
     if f[0] in ("C14.locate", "C14.render"):
         # a position inside a file that is not the first line of the first file
         return not obs.startswith("none") and f[1] != "-" and "," in f[1]
@@ -40,6 +43,8 @@ def finding_key(req, obs, detail):
             return "line-break between a function-like macro name and ( of its invocation"
         if "macro-args-empty" in flags and cls == "line-break":
             return "line-break inside the empty argument list of a macro invocation"
+        if "swizzled-literal" in flags:
+            return "trivia after the . of a swizzled numeric literal"
         return "%s at %s %s: %s" % (cls, toks, flags, code)
     return "%s: %s" % (ctx, code)
 
@@ -70,7 +75,7 @@ def search(ctx):
 
 SPEC = {
     "id": "C14",
-    "gens": ["SourceMapTables"],
+    "gens": ["SourceMapTables", "LexTables"],
     "lean_modules": ["RsslVerif.Thm.C14"],
     "theorems": [T + n for n in [
         "tables_as_modelled", "insert_shift", "line_shift", "line_shift_before", "inline_trivia_shift",
@@ -79,45 +84,78 @@ SPEC = {
         "earlier_files_unaffected", "sourceLine_eq_lineAround", "writeMessage_located", "writeMessage_unlocated",
         "message_render_shift", "boundary_preserved", "trivia_insensitive", "trivia_insensitive_rejected", "toy_lexesAs", "toy_adjacent",
         "toy_distant", "angle_bracket_not_closed", "macro_call_gap_inline_insensitive",
-        "macro_call_gap_linebreak_witness", "macro_call_gap_insensitive_if_fixed", "empty_argument_linebreak_witness"]],
+        "macro_call_gap_linebreak_witness", "macro_call_gap_insensitive_if_fixed", "empty_argument_linebreak_witness",
+        "trivia_insensitive_if", "trivia_insensitive_rejected_if", "trivia_lexers_as_modelled",
+        "trivia_insensitive_lexer", "trivia_insensitive_lexer_rejected", "lexer_failure_moves",
+        "lexer_side_conditions_needed", "preprocess_trivia_insensitive_partial"]] + [
+        # the lemma the lexer theorem rests on (Lemmas/LexStableTok.lean) and the three facts about the concrete lexer
+        "RsslVerif.Lemmas.LexStable.tokenIntermediate_stable", "RsslVerif.Lemmas.TriviaLexer.triviaText_lexesAs",
+        "RsslVerif.Lemmas.TriviaLexer.adjacent", "RsslVerif.Lemmas.TriviaLexer.distant"],
     "harness": "c14",
     "nontrivial": nontrivial,
     "finding_key": finding_key,
     "shrink": shrink,
     "search": search,
-    "rule": "generated shader files (resources, helper call graphs, entry points, pipelines; spread over main.rssl / inc.rssl / "
+    "rule": "(1) generated shader files (resources, helper call graphs, entry points, pipelines; spread over main.rssl / inc.rssl / "
             "inc2.rssl with #pragma once, object-like, function-like and ## macros, #if/#ifdef/#elif blocks, multi-line macro "
             "calls, <, >, <<, >> and template arguments) and hand-written snippets, accepted and rejected (one injected error "
-            "of 16 kinds, in the entry file or an included file) x 4 targets x edits: k in 0..50 whole lines (blank, comment, "
-            "whitespace) at a line start, or 1..n trivia insertions (spaces, tabs, block comments, line comment + newline, "
-            "blank lines, CRLF, backslash-newline splices) at token boundaries taken from the real lexer, never directly after "
-            "< or >, never between a macro name and ( in a #define, never inside an #include argument, not directly after a line comment (the text would join the "
-            "comment), a comment after a / token gets a leading space, no line breaks on directive lines; plus the repository's own multi-file inputs; plus SourceManager / MessagePrinter requests on "
-            "random multi-file texts. Oracle: accepted programs give byte-identical source, stages and metadata; rejected "
-            "programs give the original diagnostic with every position replaced by the position of the same byte of the edited "
-            "text (k lines: line + k, same column, message, file). non-trivial = something was inserted / a position beyond the "
-            "first file",
-    "level_text": "Proof: the SourceManager model (files own size+1 consecutive slots; line/column by counting newline bytes) is "
+            "of 16 kinds, in the entry file or an included file); (2) the diagnostics stream: the 104 families of rejected "
+            "programs of C07 (every TyperError / ParseError / PreprocessError / LexerError variant reachable), 31 own families "
+            "(errors inside macro expansions, notes across files, file shapes: no final newline, #include on the last line, "
+            "empty files, CRLF, tabs and UTF-8, splices, bytes that are not white space, trivia next to #, ##, <, >), 96 "
+            "single-error programs and the repository's own rejected test inputs; x 4 targets x edits: k in 0..50 whole lines "
+            "(blank, comment, whitespace) at a line start, or 1..n trivia insertions (spaces, tabs, block comments with fixed "
+            "and random bodies, multi-line block comments, line comment + newline also spliced over lines, blank lines, CRLF, "
+            "backslash-newline splices) at token boundaries taken from the real TokenStream (header-name mode after #include), "
+            "never directly after < or >, never between a macro name and ( in a #define, not directly after a line comment "
+            "(the text would join the comment), a comment after a / token gets a leading space, no logical line break on a "
+            "directive line or in front of a stray # ; for rejected programs 9 edits are aimed at the construct each located "
+            "message points to (lines before / directly before / after / between two locations / in another file, inline "
+            "trivia earlier on the line, trivia directly before, inside, all around); (3) the lexer alone (C14.lex): token "
+            "soups and windows of generated files with trivia and near-trivia inserted at real token ends; (4) the repository's "
+            "own multi-file inputs; (5) SourceManager / MessagePrinter requests on random multi-file texts. Oracle: accepted "
+            "programs give byte-identical source, stages and metadata; rejected programs give the original diagnostic with "
+            "every position of every message replaced by the position of the same byte of the edited text (k lines: line + k, "
+            "same column, message, file); every message names a loaded file and shows that file's line; the first message of "
+            "an injected error and the notes of the nt_* families point into the expected file at the expected construct; for "
+            "C14.lex the non-trivia tokens (kind, payload, span) and the lexer's verdict are unchanged whenever the side "
+            "conditions of trivia_insensitive_lexer hold. non-trivial = something was inserted / a position beyond the first file",
+    "level_text": "Proof: (a) the SourceManager model (files own size+1 consecutive slots; line/column by counting newline bytes) is "
                   "proved, for all texts, insertion points and file lists, to move every later position down by exactly k lines "
                   "with unchanged column and file when k newline-terminated lines are inserted at a line start, to leave earlier "
                   "positions and other files untouched, to decode a position inside an included file to that file's own name "
-                  "and line whatever the including files contain, and to print distinct positions differently. The constants "
-                  "and format pieces are re-extracted from location.rs / errors.rs / tokens.rs each run; the model is compared "
-                  "with the real SourceManager and MessagePrinter, and with where the real compile() puts the diagnostic of an "
-                  "edited program. That every compiler stage carries token spans through is tested (metamorphic run on the real "
-                  "compile), not proved.",
+                  "and line whatever the including files contain, and to print distinct positions differently. (b) For the "
+                  "byte-level model of preprocess/src/lexer.rs (token_intermediate with every sub-lexer, TokenStream::read_to_end, "
+                  "prepare_tokens) it is proved for all texts that inserting any trivia text (spaces, tabs, LF/CRLF, spliced line "
+                  "ends, block comments closed at their first */, line comments with their line end) at offset 0 or after any "
+                  "token leaves the sequence of non-trivia tokens (kind, payload, spelling) unchanged with spans moved by the "
+                  "inserted length, and leaves a rejection a rejection at the moved offset with the same reason - under four side "
+                  "conditions stated exactly and each shown necessary on concrete bytes: not after < or >, not after a line "
+                  "comment, no / directly before a new /, no swizzled numeric literal (1.xxx) before the insertion. (c) The "
+                  "directive state machine of preprocess_included_file is proved to split a token stream into commands and normal "
+                  "tokens independently of Whitespace / Comment / PhysicalEndline tokens (partial: what the commands, macro "
+                  "expansion, parser and typer then do is tested only). Constants, format pieces, token tables, the loop shapes "
+                  "of block_comment / line_comment and the directive arms are re-extracted from the source each run; the models "
+                  "are compared with the real SourceManager, MessagePrinter and TokenStream, and with where the real compile() "
+                  "puts every message of the diagnostic of an edited program. That every later compiler stage carries token "
+                  "spans through is tested (metamorphic run on the real compile over 350+ distinct diagnostics), not proved.",
     "trusted_base": [
         "Lean 4.33 kernel; axioms propext / Classical.choice / Quot.sound only",
-        "tools/gens/c14.py: regex extraction of constants and format strings from text/src/location.rs, errors.rs, tokens.rs, "
-        "preprocess.rs (prepare_tokens, trim_whitespace_start) and lexer.rs (whitespace spellings)",
-        "hand-written Model/SourceMap.lean mirrors get_file_location / get_file_offset_from_source_location / "
-        "write_source_for_error / write_message; tied to the code by the correspondence run",
-        "token boundaries come from the real lexer (rssl_preprocess::verif::lex); the insertion rules are our reading of "
-        "'the two places where adjacency is significant by design'",
+        "tools/gens/c14.py: regex extraction of constants, format strings, comment-lexer loop shapes and directive arms from "
+        "text/src/location.rs, errors.rs, tokens.rs, preprocess.rs and lexer.rs; tools/gens/c10.py: keyword / operator / "
+        "suffix tables of lexer.rs (Gen.LexTables)",
+        "hand-written Model/SourceMap.lean (get_file_location / get_file_offset_from_source_location / write_source_for_error / "
+        "write_message) and Model/Lexer.lean (C10's byte-level lexer, used unchanged) behind Model/TriviaLexer.lean; tied to "
+        "the code by the correspondence run (C14.locate / srcloc / render / lex) on every check",
+        "token boundaries come from the real TokenStream driven the way preprocess_included_file drives it; the insertion rules "
+        "beyond the two designed exceptions (not after a line comment, a space between / and a comment, no logical line break "
+        "on a directive line or before a stray #) are our reading of 'token boundary' and 'significant by design'",
     ],
     "assumptions": [
         "u32 location arithmetic is modelled by Nat: the sum of all file sizes + file count stays below 2^32 - 1",
         "file contents are valid UTF-8 and diagnostics point at character boundaries (otherwise write_source_for_error panics; "
         "the model reports that panic explicitly)",
+        "the lexer theorems are about read_to_end (token_intermediate in normal mode); the header-name mode used for the rest of "
+        "an #include line is covered by the metamorphic run only",
     ],
 }
